@@ -55,6 +55,9 @@ fn ops() -> Vec<String> {
         "p = o",
         "o.a = o.b",
         "o[\"a b\"] = o[\"a\"]",
+        "o[\"a\"] = p",
+        "o[\"B\"] = p",
+        "o.b = {\"z\": K}",
         "o[\"cur\"] = \"a\"",
         "o[o[\"cur\"]] = K",
         "o[o.cur] += 1",
@@ -115,6 +118,13 @@ fn analyse(text: &str) -> (String, String) {
                         format!("k{}", *ints.entry(*n).or_insert(l))
                     }
                     Val::Int(n) => format!("i{}", n),
+                    Val::Obj(a2) => {
+                        // nested object: identity (against o / p) and contents
+                        let who = if o.as_ref().map(|x| x.0) == Some(*a2) { "=o" } else if p.as_ref().map(|x| x.0) == Some(*a2) { "=p" } else { "" };
+                        let inner: Vec<String> = it.obj(*a2).iter().map(|(k2, v2)| format!("{:?}:{}", k2, match &v2.v { Val::Int(n) if *n >= 1000 => { let l = ints.len(); format!("k{}", *ints.entry(*n).or_insert(l)) } Val::Int(n) => format!("i{}", n), other => format!("{:?}@{:?}", other.kind(), match other { Val::Obj(x) => *x, _ => 0 }) })).collect();
+                        format!("O{}{{{}}}", who, inner.join(","))
+                    }
+                    Val::Str(sv) => format!("s{:?}", sv),
                     other => format!("{:?}", other.kind()),
                 };
                 key.push_str(&format!("{:?}:{},", k, vs));
@@ -245,7 +255,7 @@ impl Check for C12 {
     }
 
     fn run(&self, ctx: &mut Ctx) -> Result<(), MachineryError> {
-        let depth = std::env::var("C12_DEPTH").ok().and_then(|s| s.parse().ok()).unwrap_or(ctx.tier.pick(5usize, 7usize));
+        let depth = std::env::var("C12_DEPTH").ok().and_then(|s| s.parse().ok()).unwrap_or(ctx.tier.pick(4usize, 6usize));
         let alpha = Alpha { ops: ops() };
         let max_entries = ctx.tier.pick(3usize, 4usize);
         ctx.rule = format!(
